@@ -6,6 +6,8 @@ import fcntl
 import hashlib
 import json
 import os
+import signal
+import threading
 import re
 import subprocess
 import sys
@@ -35,13 +37,24 @@ class InfraError(Exception):
 # --------------------------------------------------------------------------------------
 # exact numbers
 # --------------------------------------------------------------------------------------
+class ImplTimeout(Exception):
+    """an implementation call exceeded its CPU-time budget"""
+
+
+class NonFiniteValue(ValueError):
+    """a NaN / inf reached an exact conversion (a value of the implementation that the model treats as a number)"""
+
+
 def fr(v):
     """exact Fraction of a python / numpy scalar (floats are dyadic rationals)"""
     if isinstance(v, Fraction):
         return v
     if isinstance(v, (int, np.integer)):
         return Fraction(int(v))
-    return Fraction(float(v))
+    fv = float(v)
+    if fv != fv or fv in (float("inf"), float("-inf")):
+        raise NonFiniteValue(f"non-finite value {fv!r} where the model expects a number")
+    return Fraction(fv)
 
 
 def enc(v):
@@ -382,12 +395,26 @@ class Ctx:
     def impl_call(self, case, fn, clause="implementation-raises", signature=None):
         """run implementation code on a VALID input; an exception is a property failure
         (the property promises a result), never a harness crash"""
+        self.last_desc = case
+        # a call that burns more CPU time than any valid case can need is a hang of the implementation (e.g. a loop whose
+        # exit condition no longer becomes true): CPU time of this process, so a loaded machine cannot trigger it
+        limit = float(os.environ.get("VERIF_CALL_CPU_LIMIT", "900"))
+        armed = False
+        if threading.current_thread() is threading.main_thread() and limit > 0:
+            def _cpu(signum, frame):
+                raise ImplTimeout(f"the call did not return within {limit:.0f} s of CPU time")
+            signal.signal(signal.SIGVTALRM, _cpu)
+            signal.setitimer(signal.ITIMER_VIRTUAL, limit)
+            armed = True
         try:
             return True, fn()
         except Exception as e:  # noqa: BLE001
             self.check_prop(clause, False, case, {"exception": (type(e).__name__ + ": " + str(e))[:600]},
                             signature=signature)
             return False, None
+        finally:
+            if armed:
+                signal.setitimer(signal.ITIMER_VIRTUAL, 0)
 
     def check_pred(self, clause, impl, spec, case, signature=None, **kw):
         st, dev = compare(impl, spec, **kw)
